@@ -1,3 +1,74 @@
-/-! # C19 — (stub: property theorems go here; see docs/BUILDING.md) -/
+import PtVerif.Proofs.Hill
+/-!
+# C19 — Hill form is a canonical, composition-preserving normal form
+
+Model: `hillKey`, `sortBy`, `hillS` in `Model/Formula.lean` (`_hill_key`,
+`_convert_to_hill_notation`, `Formula.hill`) with the symbol table generated from
+core.py (`Generated/ElementBase`, `Model/Symbols.lean`).  `t` is the atoms dict of the
+formula (`Items.atoms`, distinct keys by `C02.atoms_keys_distinct`).
+-/
 namespace PtVerif.C19
+open PtModel
+
+variable {α : Type}
+
+/-- data fact over the regenerated `element_base`: atomic numbers are distinct, and the
+    symbols – together with `D` and `T` – are pairwise distinct -/
+theorem generated_symbols_distinct :
+    (genSyms.map Prod.fst).Nodup ∧ (genSyms.map Prod.snd ++ [codeD, codeT]).Nodup := by
+  decide +kernel
+
+/-- hence the sort key `(class, symbol, isotope, charge)` distinguishes all atoms of the table -/
+theorem key_injective : KeyInjective symOf (fun x => x.z ∈ genSyms.map Prod.fst) :=
+  symOfTable_injective genSyms generated_symbols_distinct.1 generated_symbols_distinct.2
+
+/-- the Hill form has exactly the same atom counts -/
+theorem hill_same_counts [CommSemiring α] (sym : Nat → Nat → Nat) (s : Items α) (b : Atom) :
+    lookupD (hillS sym s.atoms).atoms b = lookupD s.atoms b :=
+  hill_counts sym s.atoms (Items.keysNodup_countAcc s (by simp [KeysNodup])) b
+
+/-- it is one flat list of the same (atom, count) entries … -/
+theorem hill_is_permutation (sym : Nat → Nat → Nat) (t : List (Atom × α)) :
+    (hillSorted sym t).Perm t ∧
+    hillS sym t = Items.ofList ((hillSorted sym t).map fun e => (e.2, Frag.atom e.1)) :=
+  ⟨hillSorted_perm sym t, hillS_eq sym t⟩
+
+/-- … ordered by the key: earlier entries never have a larger key -/
+theorem hill_sorted (sym : Nat → Nat → Nat) (t : List (Atom × α)) :
+    (hillSorted sym t).Pairwise fun x y => (hillKey sym x.1).le (hillKey sym y.1) = true :=
+  hillSorted_pairwise sym t
+
+/-- what the key order means: carbon and hydrogen (class 0, and "C" < "H") first, then all
+    other atoms by symbol; atoms with one symbol by mass number; ions of one atom by charge -/
+theorem key_order (sym : Nat → Nat → Nat) (x y : Atom) :
+    (hillKey sym x).le (hillKey sym y) = true ↔
+      (hillKey sym x).cls < (hillKey sym y).cls ∨ ((hillKey sym x).cls = (hillKey sym y).cls ∧
+        (sym x.z x.a < sym y.z y.a ∨ (sym x.z x.a = sym y.z y.a ∧
+          (x.a < y.a ∨ (x.a = y.a ∧ x.q ≤ y.q))))) := HillKey.le_iff _ _
+
+theorem key_class (sym : Nat → Nat → Nat) (x : Atom) :
+    (hillKey sym x).cls = if sym x.z x.a = symC ∨ sym x.z x.a = symH then 0 else 1 := rfl
+
+/-- **canonical**: formulas with equal atom dicts (same atoms and counts, in any order –
+    i.e. any regrouping or reordering of the same composition) have equal Hill forms -/
+theorem hill_canonical (t₁ t₂ : List (Atom × α)) (hd : ∀ e ∈ t₁, e.1.z ∈ genSyms.map Prod.fst)
+    (hk : KeysNodup t₁) (hp : t₁.Perm t₂) : hillS symOf t₁ = hillS symOf t₂ := by
+  rw [hillS_eq, hillS_eq, hillSorted_canonical symOf _ key_injective t₁ t₂ hd hk hp]
+
+/-- taking the Hill form twice changes nothing -/
+theorem hill_twice [CommSemiring α] (sym : Nat → Nat → Nat) (s : Items α) :
+    hillS sym (hillS sym s.atoms).atoms = hillS sym s.atoms :=
+  hill_idempotent sym s.atoms (Items.keysNodup_countAcc s (by simp [KeysNodup]))
+
+/-- a flat formula already written in Hill order (as a parsed string is) equals its own Hill form -/
+theorem written_in_hill_order_is_own_hill [CommSemiring α] (sym : Nat → Nat → Nat)
+    (l : List (Atom × α)) (hk : KeysNodup l)
+    (hs : l.Pairwise fun x y => (hillKey sym x.1).le (hillKey sym y.1) = true) :
+    hillS sym (Items.ofList (l.map fun e => (e.2, Frag.atom e.1))).atoms
+      = Items.ofList (l.map fun e => (e.2, Frag.atom e.1)) := hill_of_sorted sym l hk hs
+
+/-! non-vacuity: C H4 O in Hill order; O C H4 sorts to it -/
+example : hillSorted symOf [((⟨8,0,0⟩ : Atom), (1:Int)), (⟨6,0,0⟩, 1), (⟨1,0,0⟩, 4)]
+    = [(⟨6,0,0⟩, 1), (⟨1,0,0⟩, 4), (⟨8,0,0⟩, 1)] := by decide +kernel
+
 end PtVerif.C19
